@@ -283,6 +283,123 @@ def check_eval(ctx) -> None:
 
 # ----------------------------------------------------------------------------------------- guard
 def check_guard(ctx) -> None:
+    """The evaluated clause decides; the reading of the loop's shape explains when it fails."""
+    n0, d0 = len(ctx.findings), len(ctx.deferred)
+    ctx.guard(check_guard_eval, ctx)
+    ctx.explain(len(ctx.findings) > n0 or len(ctx.deferred) > d0, _check_guard_reading, ctx)
+
+
+def check_guard_eval(ctx) -> None:
+    """Gene.knock_out evaluated on a gene with six reactions whose rules mix it with a functional and an already
+    switched-off gene; each reaction's `functional` is the real Reaction.functional evaluated on the stand-in. Both start
+    states of the gene's own flag (a gene flagged off whose reactions are still open is closed as well)."""
+    from ..interp import Interp
+
+    prog = ctx.prog
+    ko = prog.func("cobra.core.gene", "Gene.knock_out")
+    rf = prog.func("cobra.core.reaction", "Reaction.functional")
+    holder = {}
+
+    class _S:
+        pass
+
+    class _Gene(_S):
+        def __init__(self, gid, functional=True):
+            self.id, self.functional, self._reaction, self._model = gid, functional, set(), "model"
+
+        @property
+        def reactions(self):
+            return frozenset(self._reaction)
+
+    class _GPR(_S):
+        def __init__(self, rule):
+            self.rule = rule
+            self.asked = []
+
+        def eval(self, knockouts=None):
+            off = set() if knockouts is None else ({knockouts} if isinstance(knockouts, str) else set(knockouts))
+            self.asked.append(frozenset(off))
+            return bool(self.rule(off))
+
+        @property
+        def body(self):
+            return True
+
+    class _Rxn(_S):
+        def __init__(self, rid, genes, rule, model="model"):
+            self.id, self._genes, self._gpr, self._model, self.bounds = rid, set(genes), _GPR(rule), model, (-5.0, 7.0)
+            for g in genes:
+                g._reaction.add(self)
+
+        @property
+        def genes(self):
+            return frozenset(self._genes)
+
+        @property
+        def gpr(self):
+            return self._gpr
+
+        @property
+        def model(self):
+            return self._model
+
+        @property
+        def functional(self):
+            return holder["it"].call(rf, [], {}, selfobj=self)
+
+        def knock_out(self):
+            self.bounds = (0, 0)
+
+        @property
+        def lower_bound(self):
+            return self.bounds[0]
+
+        @property
+        def upper_bound(self):
+            return self.bounds[1]
+
+    rules = [
+        ("R1", "g", lambda off: "g" not in off, ("g",)),
+        ("R2", "g or h", lambda off: "g" not in off or "h" not in off, ("g", "h")),
+        ("R3", "g or k", lambda off: "g" not in off or "k" not in off, ("g", "k")),
+        ("R4", "g and h", lambda off: "g" not in off and "h" not in off, ("g", "h")),
+        ("R5", "(g and k) or h", lambda off: ("g" not in off and "k" not in off) or "h" not in off, ("g", "h", "k")),
+        ("R6", "g (reaction without a model)", lambda off: "g" not in off, ("g",)),
+    ]
+    for start in (True, False):
+        genes = {"g": _Gene("g", start), "h": _Gene("h", True), "k": _Gene("k", False)}
+        rxns = [_Rxn(rid, [genes[x] for x in gs], rule, None if rid == "R6" else "model") for rid, _t, rule, gs in rules]
+        it = Interp(prog, (_S,), [rf.qualname], {}, globals_={})
+        holder["it"] = it
+        label = f"gene flag {'on' if start else 'already off, reactions still open'} before the call"
+        try:
+            it.call(ko, [], {}, selfobj=genes["g"])
+        except EvalRaise as exc:
+            ctx.bad("C07.guard", ko, ko.node, f"Gene.knock_out raises {exc.exc_type} ({label})")
+            continue
+        except Unknown as exc:
+            raise AnalysisError(f"C07.guard: Gene.knock_out cannot be evaluated: {exc}")
+        if genes["g"].functional is not False:
+            ctx.bad("C07.guard", ko, ko.node, f"the gene is not flagged non-functional by knock_out ({label})")
+            continue
+        if genes["h"].functional is not True or genes["k"].functional is not False:
+            ctx.bad("C07.guard", ko, ko.node, f"knock_out changes the flag of another gene ({label})")
+            continue
+        off = {"g", "k"}
+        for r, (rid, text, rule, gs) in zip(rxns, rules):
+            closed = tuple(r.bounds) == (0, 0)
+            want_closed = rid != "R6" and not rule(off & set(gs))
+            if closed and not want_closed:
+                ctx.bad("C07.guard", ko, ko.node, f"a reaction that is still functional (rule `{text}` with g and k switched off) is closed ({label})")
+            elif want_closed and not closed:
+                ctx.bad("C07.guard", ko, ko.node, f"a reaction whose rule became false (`{text}` with g and k switched off) keeps the bounds {r.bounds} ({label})")
+            elif not want_closed and tuple(r.bounds) != (-5.0, 7.0):
+                ctx.bad("C07.guard", ko, ko.node, f"the bounds of a reaction that stays functional (`{text}`) are changed to {r.bounds} ({label})")
+            else:
+                ctx.ok("C07.guard", ko, f"{rid}/{'on' if start else 'off'}", f"rule `{text}`, {label}: {'closed to (0, 0)' if want_closed else 'left as it was'} (evaluated, with the real Reaction.functional)")
+
+
+def _check_guard_reading(ctx) -> None:
     prog, inf = ctx.prog, ctx.inf
     fn = prog.func("cobra.core.gene", "Gene.knock_out")
     g = ctx.flow.cfg(fn)
